@@ -104,7 +104,7 @@ extern "C" int streaming()
 }
 
 // RFC 2104: H((K' ^ opad) || H((K' ^ ipad) || m)), K' = H(K) if |K| > 64 else K zero-padded
-static const unsigned char g_klens[] = {0,1,31,32,33,63,64,65,66,70};
+static const unsigned char g_klens[] = {0,1,31,32,33,63,64,65,66,70,119,120,127,128,129,200};
 extern "C" int hmac()
 {
   unsigned klen = g_klens[vf_pick(sizeof(g_klens))]; unsigned mlen = vf_pick(VF_HMACMSG + 1);
